@@ -42,3 +42,22 @@ verif_crc32c_path(void)
 	return (-1);
 #endif
 }
+
+/*
+ * C03: the library's OWN self-test of the SSE4.2 routine ("hello world"), asked once more exactly as hwaccel_init()
+ * asks it.  0 = it passes, 1 = it FAILS (the library then falls back at run time), -1 = not compiled in.  The entry
+ * counter is put back.  Only to be called when the (forced) cpusupport flags report SSE4.2.
+ */
+int
+verif_crc32c_selftest(void)
+{
+#if defined(HWACCEL) && defined(CPUSUPPORT_X86_SSE42)
+	uint64_t c = verif_crc32c_calls_sse42;
+	int r = hwtest() != 0;
+
+	verif_crc32c_calls_sse42 = c;
+	return (r);
+#else
+	return (-1);
+#endif
+}
